@@ -38,6 +38,7 @@ type ReplayResult struct {
 	Output   string   `json:"output_tail"`
 	FoundBy  string   `json:"found_by"`
 	Broken   bool     `json:"adapter_broken,omitempty"`
+	Known    int      `json:"known_finding_inputs,omitempty"`
 	Seconds  float64  `json:"seconds"`
 }
 
@@ -99,6 +100,11 @@ func parseAdapter(r *adapterRun, fn, label string) *ReplayResult {
 			res.Cases += n
 		}
 		if m := reFail.FindStringSubmatch(line); m != nil && m[1] == fn {
+			if strings.HasSuffix(m[2], ".known") {
+				// input inside the excused region of a known finding: never counts as a new failure
+				res.Known++
+				continue
+			}
 			if label == "" || m[2] == label {
 				if len(res.Failures) < 10 {
 					res.Failures = append(res.Failures, strings.TrimSpace(line))
@@ -164,23 +170,8 @@ func runStandins(reg []ReplayAdapter, pr *PropertyRun, prop string, wd string) [
 			continue
 		}
 		done[key] = true
-		// known findings are excused by clause
-		var fails []string
-		for _, f := range res.Failures {
-			excused := false
-			for _, k := range loadKnownFindings() {
-				if k.Status == "known" && k.Property == prop {
-					m := reFail.FindStringSubmatch(f)
-					if m != nil && k.Obligation == fn+"#ensures:"+m[2] {
-						excused = true
-					}
-				}
-			}
-			if !excused {
-				fails = append(fails, f)
-			}
-		}
-		out = append(out, map[string]any{"function": fn, "adapter": a.File + ":" + a.Test, "bound": a.Bound, "cases": res.Cases, "failed": len(fails) > 0, "failures": fails, "label": "bounded (not counted as proved)", "adapter_broken": res.Broken})
+		fails := res.Failures
+		out = append(out, map[string]any{"function": fn, "adapter": a.File + ":" + a.Test, "bound": a.Bound, "cases": res.Cases, "failed": len(fails) > 0, "failures": fails, "label": "bounded (not counted as proved)", "adapter_broken": res.Broken, "known_finding_inputs": res.Known})
 		if res.Broken {
 			fmt.Printf("gvc: replay adapter %s did not complete:\n%s\n", a.Test, res.Output)
 		}
